@@ -200,7 +200,6 @@ def fnHoistOK (gm : CMap) (pro : List PEntry) (ps : List String) (body : List St
   g.all (fun p => (constVal p.1).isSome) &&
   (gnames g).Nodup &&
   keepsOK pro (body.dropWhile isDocStmt) &&
-  debugOKL g body &&
   ((bindTop body').isSome == (bindTop body).isSome) &&
   N.all (fun x => loc' x == loc x) &&
   (gnames gl).all (fun a => loc' a) &&
@@ -223,7 +222,6 @@ def hoistOK (w : HoistW) (m : Module) : Bool :=
   w.gmod.all (fun p => (constVal p.1).isSome) &&
   (gnames w.gmod).Nodup &&
   (reserved ++ topNames m.body).all (fun x => !(gnames w.gmod).contains x) &&
-  topDebugOK w.gmod m.body &&
   (collect m.body).all (fun e => fnHoistOK w.gmod (w.proFn e.1) e.2.1 e.2.2)
 
 end PMV.HoistAst
